@@ -47,7 +47,7 @@ func specIsReserve(ccr *charging_datatype.AccountDebitRequest) bool {
 //@   ensures assumed [C11] result1 == nil && ccr.RequestedAction == charging_datatype.DIRECT_DEBITING && (ccr.CcRequestType == charging_datatype.INITIAL_REQUEST || ccr.CcRequestType == charging_datatype.UPDATE_REQUEST) ==> result0.MultipleServicesCreditControl != nil && result0.MultipleServicesCreditControl.GrantedServiceUnit != nil
 //@   ensures assumed [C01 C06] result1 != nil ==> GhostFailed
 //@   ensures assumed [C01 C06] result1 == nil ==> GhostFailed == old(GhostFailed)
-//@   ensures assumed [C01 C06] result1 == nil && ccr.MultipleServicesCreditControl != nil && specIsReserve(ccr) && ccr.MultipleServicesCreditControl.RequestedServiceUnit != nil ==> GhostBalance[uint32(ccr.MultipleServicesCreditControl.RatingGroup)] == old(GhostBalance[uint32(ccr.MultipleServicesCreditControl.RatingGroup)])-specGrant(int64(ccr.MultipleServicesCreditControl.RequestedServiceUnit.CCTotalOctets), old(GhostBalance[uint32(ccr.MultipleServicesCreditControl.RatingGroup)])) && int64(result0.MultipleServicesCreditControl.GrantedServiceUnit.CCTotalOctets) == specGrant(int64(ccr.MultipleServicesCreditControl.RequestedServiceUnit.CCTotalOctets), old(GhostBalance[uint32(ccr.MultipleServicesCreditControl.RatingGroup)])) && (result0.MultipleServicesCreditControl.FinalUnitIndication != nil) == (int64(ccr.MultipleServicesCreditControl.RequestedServiceUnit.CCTotalOctets) > old(GhostBalance[uint32(ccr.MultipleServicesCreditControl.RatingGroup)]))
+//@   ensures assumed [C01 C06] result1 == nil && ccr.MultipleServicesCreditControl != nil && specIsReserve(ccr) && ccr.MultipleServicesCreditControl.RequestedServiceUnit != nil ==> GhostBalance[uint32(ccr.MultipleServicesCreditControl.RatingGroup)] == old(GhostBalance[uint32(ccr.MultipleServicesCreditControl.RatingGroup)])-specGrant(int64(ccr.MultipleServicesCreditControl.RequestedServiceUnit.CCTotalOctets), old(GhostBalance[uint32(ccr.MultipleServicesCreditControl.RatingGroup)])) && int64(result0.MultipleServicesCreditControl.GrantedServiceUnit.CCTotalOctets) == specGrant(int64(ccr.MultipleServicesCreditControl.RequestedServiceUnit.CCTotalOctets), old(GhostBalance[uint32(ccr.MultipleServicesCreditControl.RatingGroup)])) && (result0.MultipleServicesCreditControl.FinalUnitIndication != nil) == (int64(ccr.MultipleServicesCreditControl.RequestedServiceUnit.CCTotalOctets) > old(GhostBalance[uint32(ccr.MultipleServicesCreditControl.RatingGroup)])) && (result0.MultipleServicesCreditControl.FinalUnitIndication == nil || result0.MultipleServicesCreditControl.FinalUnitIndication.FinalUnitAction == charging_datatype.TERMINATE)
 //@   ensures assumed [C01 C06] result1 == nil && ccr.MultipleServicesCreditControl != nil && ccr.RequestedAction == charging_datatype.REFUND_ACCOUNT && ccr.MultipleServicesCreditControl.RequestedServiceUnit != nil ==> GhostBalance[uint32(ccr.MultipleServicesCreditControl.RatingGroup)] == old(GhostBalance[uint32(ccr.MultipleServicesCreditControl.RatingGroup)])+int64(ccr.MultipleServicesCreditControl.RequestedServiceUnit.CCTotalOctets)
 //@   ensures assumed [C01 C06] result1 == nil && ccr.MultipleServicesCreditControl != nil && ccr.RequestedAction == charging_datatype.DIRECT_DEBITING && ccr.CcRequestType == charging_datatype.TERMINATION_REQUEST && ccr.MultipleServicesCreditControl.UsedServiceUnit != nil ==> GhostBalance[uint32(ccr.MultipleServicesCreditControl.RatingGroup)] == old(GhostBalance[uint32(ccr.MultipleServicesCreditControl.RatingGroup)])-int64(ccr.MultipleServicesCreditControl.UsedServiceUnit.CCTotalOctets)
 //@   modifies global(&GhostRequests), field(ccr, DestinationRealm), field(ccr, DestinationHost), mapof(GhostBalance), global(&GhostFailed)
